@@ -78,6 +78,34 @@ func c14Case(t *testing.T, r *Recorder, maxChunk int, lens []int, class string) 
 	r.Case(sc.Name, nontrivial, fmt.Sprintf("%s/m=%d", class, maxChunk))
 }
 
+// c14AsymCase: the maximum send size is a local setting, it is not negotiated: only the sender of
+// the direction under test splits (the other endpoint is created without WithMaxSendSize), and
+// still every Send is exactly one Recv result. dir 0: client -> server, dir 1: server -> client.
+func c14AsymCase(t *testing.T, r *Recorder, maxChunk int, lens []int, dir int) {
+	sc := &GbnScenario{Name: fmt.Sprintf("only-sender-splits-dir%d-m%d-%v", dir, maxChunk, lens), N: 20, MaxChunk: maxChunk,
+		Latency: time.Millisecond, RunFor: 50 * time.Second, Static: 60 * time.Second}
+	sc.Msgs[dir] = lens
+	sc.NoChunkEP[1-dir] = true
+	res := RunGbn(t, sc, nil)
+	if res.Panic != "" || res.HsErr[0] != "" || res.HsErr[1] != "" {
+		r.Violate("C14/run-failed", res.Panic+res.HsErr[0]+res.HsErr[1], sc)
+		return
+	}
+	bad := len(res.Sent[dir]) != len(lens) || len(res.Recvd[1-dir]) != len(res.Sent[dir])
+	if !bad {
+		for i := range res.Sent[dir] {
+			if !bytes.Equal(res.Sent[dir][i], res.Recvd[1-dir][i]) {
+				bad = true
+			}
+		}
+	}
+	if bad {
+		r.Violate("C14/boundaries", fmt.Sprintf("only the sending endpoint has a maximum send size (%d), lens=%v: %d Sends succeeded, Recv results %s", maxChunk, lens,
+			len(res.Sent[dir]), msgsField(res.Recvd[1-dir])), sc)
+	}
+	r.Case(sc.Name, true, fmt.Sprintf("only-sender-splits/m=%d", maxChunk))
+}
+
 // recvDeadlineCase: the Recv deadline expires after `j` chunks of a c-chunk
 // message have arrived; the call is retried.
 func recvDeadlineCase(t *testing.T, r *Recorder, c, j int) {
@@ -235,6 +263,12 @@ func TestC14(t *testing.T) {
 					}
 				}
 			}
+		}
+	}
+	for _, m := range []int{1, 2, 4, 7} {
+		for dir := 0; dir < 2; dir++ {
+			c14AsymCase(t, r, m, []int{2*m + 2, 2, m, 0, 3*m + 1, 1}, dir)
+			c14AsymCase(t, r, m, []int{m + 1}, dir)
 		}
 	}
 	rng := newRand(14)
